@@ -302,6 +302,10 @@ def judge(ctx, cases, jails, ents_l, answers, crashes, mlines, t0, cov, dist, di
         key = (c["stream"], c["dest"], c["p"], c["y"], c["um"])
         if names and key not in distinct:
             distinct.add(key)
+        if f.get("sig") == "997":
+            dist["skipped_after_timeouts"] = dist.get("skipped_after_timeouts", 0) + 1
+            cov["evaluations"] -= 1
+            continue
         if crashes[k] is not None or "rc" not in f:
             ctx.disagreement("pcp harness", "harness failed on a case: %s %s" % (answers[k][:200], str(crashes[k])[-300:]), cj)
             continue
@@ -319,7 +323,7 @@ def judge(ctx, cases, jails, ents_l, answers, crashes, mlines, t0, cov, dist, di
             sig = "timeout" if f["sig"] in ("998", "999") else "crash"
             ctx.offender(sig, "the receiver %s (rc=%s sig=%s sanitizer=%s): %s" %
                          ("hangs" if sig == "timeout" else "crashes", f["rc"], f["sig"], f["san"],
-                          pcp.unhx(f["err"]).decode("latin-1")[-300:]), cj)
+                          pcp.unhx(f["err"]).decode("latin-1")[:300]), cj)
             continue
         # ---- oracle: confinement (spec12 on the real changed paths)
         sp, nm = slines[2 * k], slines[2 * k + 1]
